@@ -6,20 +6,22 @@
 ROOT=$(cd "$(dirname "$0")/.." && pwd)
 name=$1; wt=$2; prop=$3; shift 3
 set -u
+T=$(mktemp -d /tmp/_se_XXXXXX)      # private scratch: two evaluations may run side by side
 cd "$wt" || exit 2
-git diff -- src cmake > /tmp/_seed.diff
-[ -s /tmp/_seed.diff ] || cp patch.diff /tmp/_seed.diff
+git diff -- src cmake > $T/seed.diff
+[ -s $T/seed.diff ] || cp patch.diff $T/seed.diff
 demo=$(ls demo_*.py | head -1)
 echo "== tests with the change"; PYTHONPATH=$wt/src /venv/bin/python -m pytest -q -p no:cacheprovider 2>&1 | tail -1
-echo "== demo with the change"; PYTHONPATH=$wt/src /venv/bin/python -W ignore $demo > /tmp/_demo_with.txt 2>&1; echo "exit=$?"; tail -3 /tmp/_demo_with.txt
+echo "== demo with the change"; PYTHONPATH=$wt/src /venv/bin/python -W ignore $demo > $T/demo_with.txt 2>&1; echo "exit=$?"; tail -3 $T/demo_with.txt
 git checkout -- src cmake
-echo "== demo without the change"; PYTHONPATH=$wt/src /venv/bin/python -W ignore $demo > /tmp/_demo_without.txt 2>&1; echo "exit=$?"; tail -2 /tmp/_demo_without.txt
-git apply /tmp/_seed.diff
-mkdir -p /verif/seeded/$name && cp /tmp/_seed.diff /verif/seeded/$name/patch.diff && cp $demo /verif/seeded/$name/
+echo "== demo without the change"; PYTHONPATH=$wt/src /venv/bin/python -W ignore $demo > $T/demo_without.txt 2>&1; echo "exit=$?"; tail -2 $T/demo_without.txt
+git apply $T/seed.diff
+mkdir -p /verif/seeded/$name && cp $T/seed.diff /verif/seeded/$name/patch.diff && cp $demo /verif/seeded/$name/
 cd "$ROOT"
 # SEED_REPO: scratch worktree of /repo HEAD to apply the change in (default: /repo itself, as the brief prescribes)
 R=${SEED_REPO:-/repo}
-if ! git -C $R apply --check /tmp/_seed.diff 2>/dev/null; then echo "PATCH DOES NOT APPLY TO $R HEAD"; exit 3; fi
-git -C $R apply /tmp/_seed.diff
-for c in "$@"; do echo "== check $c"; VERIF_REPO=$R ./check $c > /tmp/_seed_$c.log 2>&1; echo "exit=$?"; grep -E "^VIOLATION|^KNOWN|^HARNESS|^C[0-9]+ \[" /tmp/_seed_$c.log | cut -c1-260; grep -A1 "^VIOLATION" /tmp/_seed_$c.log | grep obligation | cut -c1-420 | head -3; done
+if ! git -C $R apply --check $T/seed.diff 2>/dev/null; then echo "PATCH DOES NOT APPLY TO $R HEAD"; exit 3; fi
+git -C $R apply $T/seed.diff
+for c in "$@"; do echo "== check $c"; VERIF_REPO=$R ./check $c > $T/check_$c.log 2>&1; echo "exit=$?"; grep -E "^VIOLATION|^KNOWN|^HARNESS|^C[0-9]+ \[" $T/check_$c.log | cut -c1-260; grep -A1 "^VIOLATION" $T/check_$c.log | grep obligation | cut -c1-420 | head -3; done
 git -C $R checkout -- . ; git -C $R status --short
+rm -rf "$T"
